@@ -655,6 +655,7 @@ func (a *Assembler) AssembleWithContext(netFlow gopacket.Flow, t *layers.TCP, ac
 		}
 		return
 	}
+	verifBeforeLock(&conn.mu)
 	conn.mu.Lock()
 	defer conn.mu.Unlock()
 	if half.lastSeen.Before(timestamp) {
@@ -1276,6 +1277,7 @@ func (a *Assembler) FlushWithOptions(opt FlushOptions) (flushed, closed int) {
 	flushes := 0
 	for _, conn := range conns {
 		remove := false
+		verifBeforeLock(&conn.mu)
 		conn.mu.Lock()
 		for _, half := range []*halfconnection{&conn.s2c, &conn.c2s} {
 			flushed, closed := a.flushClose(conn, half, opt.T, opt.TC)
@@ -1291,6 +1293,7 @@ func (a *Assembler) FlushWithOptions(opt FlushOptions) (flushed, closed int) {
 		}
 		conn.mu.Unlock()
 		if remove {
+			verifYield("flush:before-remove")
 			a.connPool.remove(conn)
 		}
 	}
@@ -1330,6 +1333,7 @@ func (a *Assembler) FlushAll() (closed int) {
 	conns := a.connPool.connections()
 	closed = len(conns)
 	for _, conn := range conns {
+		verifBeforeLock(&conn.mu)
 		conn.mu.Lock()
 		for _, half := range []*halfconnection{&conn.s2c, &conn.c2s} {
 			for !half.closed {
